@@ -372,6 +372,8 @@ void h_ctor_glat2(void)
   'claims':'GlyphCache::Loader::read_box under LOADER_WF: for ANY glyph id the Gloc offsets, the octabox bitmap, the 4 diagonal bytes and 8 bytes per sub-box are read inside Gloc / Glat; the GlyphBox header and the 2*num sub-box rectangles are written inside a box of exactly sizeof(GlyphBox) + 8*num*sizeof(float) bytes (what GlyphCache::glyph allocates from the numsubs read_glyph reported); result 0 or the byte after the last rectangle'}@*/
 /*@unit {'name':'c01_cache_glyph', 'props':['C01','C02'], 'entry':'h_cache_glyph', 'enforce':'GlyphCache_glyph', 'defines':['PART_B','CACHE'],
   'claims':'GlyphCache::glyph (lazy loading path, loop free) with read_glyph / read_box replaced by models that produce every outcome their contracts allow and CHECK the read_box precondition: any glyph id is served from inside _glyphs[0,numGlyphs) (out-of-range ids get glyph 0); a glyph that read_glyph rejects is deleted together with the attribute array the sparse constructor may have allocated (~sparse extracted) - nothing leaks, nothing is freed twice, the cache slot stays 0; the box handed to read_box has exactly sizeof(GlyphBox) + 8*numsubs*sizeof(float) bytes for the numsubs read_glyph reported, is stored in _boxes[gid] and freed again if read_box refuses it. (Allocation failure of the box is excluded: see report, read_box(NULL))'}@*/
+/*@unit {'name':'c01_cache_glyph_oom', 'props':['C01','C02'], 'entry':'h_cache_glyph', 'enforce':'GlyphCache_glyph', 'defines':['PART_B','CACHE','BOX_ALLOC_MAY_FAIL'],
+  'claims':'(variant in which the box allocation may fail; the NULL box must not reach read_box - repaired in /repo, fix: 9c5ad009) GlyphCache::glyph (lazy loading path, loop free) with read_glyph / read_box replaced by models that produce every outcome their contracts allow and CHECK the read_box precondition: any glyph id is served from inside _glyphs[0,numGlyphs) (out-of-range ids get glyph 0); a glyph that read_glyph rejects is deleted together with the attribute array the sparse constructor may have allocated (~sparse extracted) - nothing leaks, nothing is freed twice, the cache slot stays 0; the box handed to read_box has exactly sizeof(GlyphBox) + 8*numsubs*sizeof(float) bytes for the numsubs read_glyph reported, is stored in _boxes[gid] and freed again if read_box refuses it. (Allocation failure of the box is excluded: see report, read_box(NULL))'}@*/
 
 #ifdef PART_B
 #ifndef TMAX
@@ -799,7 +801,7 @@ void h_read_box(void)
     CANARY();
 }
 #endif
-#ifdef UNIT_c01_cache_glyph
+#if defined(UNIT_c01_cache_glyph) || defined(UNIT_c01_cache_glyph_oom)
 void h_cache_glyph(void)
 {
     GlyphCache *c = malloc(sizeof(GlyphCache)); Loader *L = malloc(sizeof(Loader)); __CPROVER_assume(c && L);
